@@ -40,6 +40,14 @@ if n == fail_at:
         sys.stdout.write("s SATISFIABLE\n")
     elif kind == "empty-v":
         sys.stdout.write("s SATISFIABLE\nv\n")
+    elif kind.startswith("bigerr:"):
+        # a chatty solver: k bytes of diagnostics on the standard error stream, then the honest answer
+        k = int(kind[7:])
+        line = "c " + "e" * 98 + "\n"
+        sys.stderr.write(line * (k // 100))
+        sys.stderr.flush()
+        p = subprocess.run(["/usr/local/bin/kissat", "-q"], input=data, stdout=subprocess.PIPE)
+        sys.stdout.write(p.stdout.decode())
     elif kind.startswith("big:"):
         k = int(kind[4:])
         line = "c " + "x" * 98 + "\n"
